@@ -348,7 +348,7 @@ func Col(dst []float64, j int, a Matrix) []float64 {
 func Row(dst []float64, i int, a Matrix) []float64 {
 	r, c := a.Dims()
 	if i < 0 || i >= r {
-		panic(ErrColAccess)
+		panic(ErrRowAccess)
 	}
 	if dst == nil {
 		dst = make([]float64, c)
